@@ -1111,6 +1111,22 @@ class Engine:
     ctx.on_yield(ctx, v)
     return None
 
+  def e_YieldFrom(self, ctx, e):
+    """`yield from X`: a generator function of the source called in X reports its yields to ctx.on_yield while it is
+    inlined; a concrete sequence is yielded item by item; a contract value may define yield_from(ctx)."""
+    v = self.eval(ctx, e.value)
+    if v is None:
+      return None
+    if hasattr(v, 'yield_from'):
+      return v.yield_from(ctx)
+    if isinstance(v, (tuple, list)):
+      for item in v:
+        if ctx.on_yield is None:
+          raise Undecided('yield from without a generator contract (on_yield)')
+        ctx.on_yield(ctx, item)
+      return None
+    raise Unsupported(f'yield from {type(v).__name__}')
+
   def e_Starred(self, ctx, e):
     raise Unsupported('starred expression')
 
